@@ -777,3 +777,53 @@ def l_c19(it):
                        z3.Implies(z3.And(T.present(O_of(w.fs0, any_c)),
                                          T.present(C_of(w.fs0, any_c))),
                                   O_of(fs, any_c) == O_of(w.fs0, any_c)), props=("C19",))
+
+
+# ---------------------------------------------------------------------------------------------------
+# C10 / C13: recovery
+# ---------------------------------------------------------------------------------------------------
+def partial_state_world(it):
+    """A store whose *other* pids satisfy Inv while `pid` is in an arbitrary partial reference
+    condition (what a crash or a failed call may leave): its pid reference may or may not exist,
+    may name any digest, the list may or may not contain it.  Typing still holds (C09)."""
+    w = World(it)
+    return w
+
+
+@lemma("C13/unbound-pid-can-be-stored-at-once", ("C13", "C10"))
+def l_c13_retry(it):
+    """From a state in which the pid has no pid reference - whatever its cid list says (stale
+    line or not) - tagging succeeds and binds it."""
+    w = World(it)
+    ctx = it.ctx
+    pid, cid = sym_str("pid"), sym_str("cid")
+    p, c = pid.term, cid.term
+    ctx.assume(z3.And(T.wsfree(p), T.ishex(c)))
+    # NOT adding p to the Inv instantiation: its list may contain a stale line
+    ctx.assume(T.is_Absent(P_of(w.fs0, w.self, p)))
+    out = w.call(refs.tag_object, pid, cid)
+    ctx.oblige("lemma/C13/retry-after-failed-call-succeeds", z3.BoolVal(out[0] == "return"),
+               detail=str(out[:2]), props=("C13", "C10"))
+    ctx.oblige("lemma/C13/retry-binds-the-pid",
+               z3.And(P_of(w.fs, w.self, p) == T.Data(c),
+                      z3.Select(T.as_lines(C_of(w.fs, c)), p) >= 1), props=("C13", "C10"))
+
+
+@lemma("C10/recover-after-crash", ("C10",))
+def l_c10_recover(it):
+    """From any reference condition of the interrupted pid, delete_object returns or reports the
+    pid as unknown, and a following tag (the reference part of store_object) succeeds."""
+    w = World(it)
+    ctx = it.ctx
+    pid, cid = sym_str("pid"), sym_str("cid")
+    p, c = pid.term, cid.term
+    ctx.assume(z3.And(T.wsfree(p), T.ishex(c)))
+    out = w.call(objects.delete_object, pid)
+    ok = out[0] == "return" or out[1] == "PidRefsDoesNotExist"
+    ctx.oblige("lemma/C10/delete-after-crash-returns-or-reports-unknown", z3.BoolVal(ok),
+               detail=str(out[:2]), props=("C10",))
+    ctx.oblige("lemma/C10/pid-unbound-after-delete", T.is_Absent(P_of(w.fs, w.self, p)),
+               props=("C10",))
+    out2 = w.call(refs.tag_object, pid, cid)
+    ctx.oblige("lemma/C10/store-after-delete-succeeds", z3.BoolVal(out2[0] == "return"),
+               detail=str(out2[:2]), props=("C10",))
